@@ -4,7 +4,7 @@
 # writes /verif/seeded/<ID>/confirm.log and prints a one-line verdict
 id=$1
 S=/verif/seeded/$id
-W=/tmp/wt/base
+W=${SEED_WT:-/tmp/wt/verify}
 L=$S/confirm.log
 demo=$(ls $S/seed_*_demo.rs | head -1)
 name=$(basename $demo .rs)
